@@ -205,7 +205,12 @@ func (e *nestEnv) keyStr(n *node, k hx.TV) string {
 	b := atree.VerifMapDigesterBuilder(n.mp)
 	digs, err := hx.DigestsWith(b, e.hi(), k)
 	if err != nil {
-		panic(err)
+		// the builder the library gave this map cannot digest a plain key: no request on the map can work
+		if e.st.HarnessErr == "" {
+			e.violation("*", fmt.Sprintf("the digester builder of map %d (container %s, as the library set it up) fails to digest a key: %v", n.h, n.vid, err))
+			e.st.HarnessErr = "nested: stopped, the digester builder of a map handed out by the library is unusable (see violation)"
+		}
+		return fmt.Sprintf("%d:%d@?", k.Size, k.Pay)
 	}
 	parts := make([]string, len(digs))
 	for i, d := range digs {
